@@ -202,6 +202,11 @@ def run(ctx):
     from .c09 import context_stop_table
     context_stop_table(ctx, program, "R12.11")
 
+    ctx.rule("R12.12", "service.call() delivers exactly the given keyword parameters, whatever they are called (a field named `name` or `domain` is service data, "
+             "not the function's own argument): the parameters of the call path are positional-only", floor=2)
+    from .c03 import kwargs_namespace_rule
+    kwargs_namespace_rule(ctx, program, "R12.12", only=("function.py::Function.service_call", "eval.py::AstEval.call_func"))
+
     ctx.rule("R12.3", "service handlers pass trigger_type='service', the call context and the call data, run the function in its own task and return its result", floor=2)
     for uid in ("eval.py::EvalFunc.trigger_init.pyscript_service_factory.pyscript_service_handler", "decorators/service.py::ServiceDecorator._service_callback"):
         f = program.func(uid)
